@@ -333,7 +333,7 @@ def replay(case: dict):
         a = landing_shard(())
         return [(v.clause, v.detail) for v in a.violations.values() if v.case == case]
     if case.get("driver") == "moving-window":
-        return mw_history(case["capacity"], [tuple(h) for h in case["history"]])
+        return mw_history(case["capacity"], [tuple(h) for h in case["history"]], case.get("align_offset_s", 0.0))
     set_unit(case.get("unit_ms", 1000))
     rb, ref = mk(case["capacity"], case["period"], case["align"], case["container"])
     counter = 0
@@ -358,7 +358,7 @@ def replay(case: dict):
 # -- MovingWindow: the real class fed through its channel on the virtual loop ----------
 
 
-def mw_history(cap, hist):
+def mw_history(cap, hist, off_s=0.0):
     """hist: list of (slot offset from the newest slot (>= -(cap-1)), kind). Returns violations."""
     from frequenz.channels import Broadcast
 
@@ -367,10 +367,13 @@ def mw_history(cap, hist):
     from ..vloop import virtual_loop
     from . import formula as F
 
+    # off_s: the window's align_to lies `off_s` seconds off the whole-second grid, and so do all samples and keys
+    E = globals()["E"] + timedelta(seconds=off_s)
     v = []
     with virtual_loop(wall=True) as loop:
         ch = Broadcast(name="in")
-        mw = MovingWindow(size=timedelta(seconds=cap), resampled_data_recv=ch.new_receiver(), input_sampling_period=timedelta(seconds=1))
+        mw = MovingWindow(size=timedelta(seconds=cap), resampled_data_recv=ch.new_receiver(), input_sampling_period=timedelta(seconds=1),
+                          **({"align_to": E} if off_s else {}))
         mw._buffer._buffer[:] = SENT  # np.empty() gives uninitialised memory: make stale content recognisable
         mw.start()
         loop.settle()
@@ -465,7 +468,7 @@ def mw_shard(args) -> Acc:
     events = [(d, k) for d in offsets for k in ("v", "none")]
     for tail in itertools.product(events, repeat=depth - 1):
         hist = [first, *tail]
-        viol = mw_history(cap, hist)
+        viol = mw_history(cap, hist, 0.3 if cap % 2 else 0.0)  # odd capacities: window aligned 0.3 s off the grid
         acc.evaluations += 1
         acc.traces += 1
         acc.transitions += len(hist)
@@ -474,7 +477,8 @@ def mw_shard(args) -> Acc:
             acc.nontrivial += 1
         acc.state(repr(("mw", cap, hist)))
         for clause, detail in viol:
-            acc.violation(Violation(clause, {"driver": "moving-window", "capacity": cap, "history": [list(h) for h in hist]}, detail))
+            acc.violation(Violation(clause, {"driver": "moving-window", "capacity": cap, "history": [list(h) for h in hist],
+                                             "align_offset_s": 0.3 if cap % 2 else 0.0}, detail))
     acc.outcome(f"moving-window cap={cap}")
     return acc
 
@@ -561,7 +565,7 @@ def run(tier: str, seed: int, workers: int):
         "{None, -cap-1..cap+1}^2 and every datetime pair on the half-slot grid from two periods before the window to two "
         "periods after; non-trivial state = history of >= 2 updates with an off-grid timestamp; plus the real MovingWindow fed through its "
         "channel on the virtual loop: every in-window update history of depth 4 (quick) / 5, capacities 3-4 (2-5), checking at(index), "
-        "at(timestamp) and [:]; plus a landing pass: one off-grid update a few microseconds around the midpoint between two slots, for "
+        "at(timestamp) and [:] (odd capacities with the window's align_to 0.3 s off the whole-second grid); plus a landing pass: one off-grid update a few microseconds around the midpoint between two slots, for "
         "alignment points in the years 1, 1970, 2000 and 9000, periods 1 s and 0.2 s, both containers",
         "assumptions": [
             "payload values only matter through validity, so valid values are renamed in the state key",
